@@ -191,7 +191,11 @@ mod imp {
                 .filter(|(tt, _)| *tt == t)
                 .filter_map(|(_, r)| match r {
                     Rec::XRecv(e) => Some(format!("X:{}", e.name)),
+                    // platform error events raised asynchronously by a failing delayed send (scenario
+                    // async-internal-event) are internal events of whatever macrostep comes next
+                    Rec::IRecv(e) if e.name.starts_with("error.") => None,
                     Rec::IRecv(e) => Some(format!("I:{}", e.name)),
+                    Rec::Mark { args, .. } if args.first().map(|a| a == "err").unwrap_or(false) => None,
                     Rec::Mark { args, .. } => Some(format!("M:{}", args.join(","))),
                     _ => None,
                 })
@@ -332,6 +336,77 @@ mod imp {
                         })
                     }),
                     oracle: c13_oracle(vec![s1]),
+                });
+                // (d) an internal event raised asynchronously while the session is blocked for an external one:
+                // a delayed <send> whose delivery fails when the timer fires puts error.communication on the
+                // internal queue from the timer thread; the host's two events are in flight around that moment
+                let s1 = vec!["h1".to_string(), "h2".to_string()];
+                let x1 = s1.clone();
+                v.push(Scenario {
+                    name: "async-internal-event-while-blocked",
+                    quick_bound: 1,
+                    thorough_bound: 2,
+                    atomics: false,
+                    body: Box::new(move |log, _notes| {
+                        let x1 = x1.clone();
+                        Box::new(move || {
+                            let ex = FsmExecutor::new_without_io_processor();
+                            let doc = format!(
+                                r##"<scxml {ns} name="c13d"><state id="s"><onentry><send event="nobody" delay="10ms" target="#_scxml_99999"/></onentry>
+ <transition event="r"><script>mark('r-done')</script></transition>
+ <transition event="error"><script>mark('err', _event.name)</script></transition>
+ <transition event="*"><script>mark('got', _event.name)</script><raise event="r"/></transition>
+</state></scxml>"##,
+                                ns = NS
+                            );
+                            let sess = start(&ex, &doc, &log);
+                            let snd1 = sess.sender.clone();
+                            let h1 = spawn(move || {
+                                for e in x1 {
+                                    let _ = snd1.send(Box::new(Event::new_simple(&e)));
+                                }
+                            });
+                            let _ = h1.join();
+                            cancel_and_join(sess);
+                        })
+                    }),
+                    oracle: c13_oracle(vec![s1]),
+                });
+                // (e) the session's timer is a sender too: two delayed sends of the session to itself (due 10 ms and
+                // 20 ms) while a host thread sends two events
+                let s1 = vec!["h1".to_string(), "h2".to_string()];
+                let s2 = vec!["d1".to_string(), "d2".to_string()];
+                let x1 = s1.clone();
+                v.push(Scenario {
+                    name: "timer-and-host-senders",
+                    quick_bound: 1,
+                    thorough_bound: 2,
+                    atomics: false,
+                    body: Box::new(move |log, _notes| {
+                        let x1 = x1.clone();
+                        Box::new(move || {
+                            let ex = FsmExecutor::new_without_io_processor();
+                            let (tx, rx) = verif_sync::mpsc::channel::<String>();
+                            let doc = format!(
+                                r##"<scxml {ns} name="c13e"><state id="s"><onentry><send event="d1" delay="10ms"/><send event="d2" delay="20ms"/></onentry>
+ <transition event="r"><script>mark('r-done')</script></transition>
+ <transition event="*"><script>mark('got', _event.name); notify(_event.name)</script><raise event="r"/></transition>
+</state></scxml>"##,
+                                ns = NS
+                            );
+                            let sess = start_n(&ex, &doc, &log, &tx);
+                            let snd1 = sess.sender.clone();
+                            let h1 = spawn(move || {
+                                for e in x1 {
+                                    let _ = snd1.send(Box::new(Event::new_simple(&e)));
+                                }
+                            });
+                            let _ = h1.join();
+                            wait_for(&rx, &["d1", "d2"]);
+                            cancel_and_join(sess);
+                        })
+                    }),
+                    oracle: c13_oracle(vec![s1, s2]),
                 });
             }
             "C17" => {
@@ -631,7 +706,7 @@ mod imp {
 <state id="b">{invokes}
  <onexit><script>mark('exit-b')</script></onexit>
  <transition event="c1 c2"><script>mark('p-child-event', _event.name, _event.invokeid); notify(_event.name)</script></transition>
- <transition event="done.invoke"><script>mark('p-done', _event.name, _event.invokeid); notify('done')</script></transition>
+ <transition event="done.invoke"><script>mark('p-done', _event.name, _event.invokeid); notify('done'); notify(_event.name)</script></transition>
  <transition event="leave" target="a"/>
  <transition event="fin"><script>notify('fin')</script></transition>
  <transition event="fw1"><script>mark('p-fw1'); notify('p-fw1')</script></transition>{extra_b}
@@ -683,7 +758,9 @@ mod imp {
                                     let _ = sess.sender.send(Box::new(Event::new_simple(ev)));
                                 }
                                 if !wait.is_empty() {
-                                    wait_for(&rx, &[wait]);
+                                    // "x+y": both, in any order
+                                    let all: Vec<&str> = wait.split('+').collect();
+                                    wait_for(&rx, &all);
                                 }
                             }
                             cancel_and_join(sess);
@@ -896,6 +973,187 @@ mod imp {
                     Ok("ok".into())
                 }),
             ));
+            // G: an invoke whose <param> fails to evaluate next to a healthy one; the error event raised by the invoke
+            // step is handled (targetless) while the invoking state stays active
+            // (children end by themselves: rFSM cancels the children that are left at the parent's end in HashMap
+            // order, which no scheduler owns)
+            let good = child_doc(r##"<state id="k"><onentry><send event="c1" target="#_parent"/></onentry><transition target="kf"/></state><final id="kf"/>"##);
+            let bad = child_doc(r##"<state id="kb"><onentry><send event="c2" target="#_parent"/></onentry><transition target="kf"/></state><final id="kf"/>"##);
+            let two_g = format!(
+                r##"<invoke id="kid"><param name="cv" expr="v"/><content>{good}</content></invoke><invoke id="kidbad"><param name="cv" expr="nosuchvar + 1"/><content>{bad}</content></invoke>"##,
+                good = good,
+                bad = bad
+            );
+            v.push(scen(
+                "invoke-with-failing-param",
+                1,
+                2,
+                parent_doc(&two_g, r##"<transition event="error"><script>mark('p-error', _event.name)</script></transition>"##),
+                vec![("go", "c1+done.invoke.kid"), ("fin", "fin")],
+                Box::new(|o: &Obs| {
+                    basic_outcome(o)?;
+                    let kids = threads_entering(o, "k");
+                    if kids.len() != 1 {
+                        return Err(("start-count".into(), format!("one entry of the invoking state started its (healthy) invoke {} times", kids.len())));
+                    }
+                    let bad = threads_entering(o, "kb");
+                    if bad.len() > 1 {
+                        return Err(("start-count".into(), format!("the invoke with a failing <param> was started {} times", bad.len())));
+                    }
+                    let ce: Vec<String> = marks_of(o, "p-child-event").iter().map(|m| m[1].clone()).collect();
+                    if ce.iter().filter(|n| *n == "c1").count() != 1 {
+                        return Err(("child-event".into(), format!("child events processed {:?}", ce)));
+                    }
+                    Ok(format!("bad-started={}", bad.len()))
+                }),
+            ));
+            // H: two invoking states in parallel regions; one of them is exited: only ITS child is cancelled,
+            // the other child keeps running and still answers
+            let kid_h = |n: &str| {
+                child_doc(&format!(
+                    r##"<state id="k{n}"><onentry><send event="up{n}" target="#_parent"/></onentry><transition event="ping"><send event="pong{n}" target="#_parent"/></transition></state>"##,
+                    n = n
+                ))
+            };
+            let doc_h = format!(
+                r##"<scxml {ns} name="parh"><parallel id="p">
+<state id="r1" initial="i1"><state id="i1"><invoke id="kid1"><content>{k1}</content><finalize><script>mark('finalize', 'kid1', _event.name)</script></finalize></invoke><transition event="leave1" target="o1"/></state><state id="o1"/></state>
+<state id="r2" initial="i2"><state id="i2"><invoke id="kid2"><content>{k2}</content><finalize><script>mark('finalize', 'kid2', _event.name)</script></finalize></invoke><transition event="leave2" target="o2"/></state><state id="o2"><onentry><script>notify('in-o2')</script></onentry></state></state>
+<transition event="up1 up2 pong1 pong2"><script>mark('p-child-event', _event.name, _event.invokeid); notify(_event.name)</script></transition>
+<transition event="ask2"><send event="ping" target="#_kid2"/></transition>
+<transition event="error"><script>mark('p-error', _event.name); notify('error')</script></transition>
+</parallel></scxml>"##,
+                ns = NS,
+                k1 = kid_h("1"),
+                k2 = kid_h("2")
+            );
+            v.push(Scenario {
+                name: "sibling-invoke-survives-exit-of-other-state",
+                quick_bound: 0,
+                thorough_bound: 1,
+                atomics: false,
+                body: Box::new(move |log, _notes| {
+                    let doc = doc_h.clone();
+                    Box::new(move || {
+                        let ex = FsmExecutor::new_without_io_processor();
+                        let (tx, rx) = verif_sync::mpsc::channel::<String>();
+                        let sess = start_n(&ex, &doc, &log, &tx);
+                        wait_for(&rx, &["up1", "up2"]);
+                        let _ = sess.sender.send(Box::new(Event::new_simple("leave1")));
+                        let _ = sess.sender.send(Box::new(Event::new_simple("ask2")));
+                        // either the answer of child 2 or the error event of the failed send arrives
+                        while let Ok(m) = rx.recv() {
+                            if m == "pong2" || m == "error" {
+                                break;
+                            }
+                        }
+                        // no child is left when the parent ends (see scenario invoke-with-failing-param)
+                        let _ = sess.sender.send(Box::new(Event::new_simple("leave2")));
+                        wait_for(&rx, &["in-o2"]);
+                        cancel_and_join(sess);
+                    })
+                }),
+                oracle: Box::new(|o: &Obs| {
+                    basic_outcome(o)?;
+                    let ce: Vec<(String, String)> = marks_of(o, "p-child-event").iter().map(|m| (m[1].clone(), m[2].clone())).collect();
+                    if !ce.contains(&("pong2".to_string(), "kid2".to_string())) {
+                        return Err((
+                            "sibling-cancelled".into(),
+                            format!("after the parent exited state i1 (invoke kid1) the child of the still active state i2 did not answer any more: parent saw {:?}, errors {:?}", ce, marks_of(o, "p-error")),
+                        ));
+                    }
+                    // finalize: only the block of the invoke the event came from
+                    for f in marks_of(o, "finalize") {
+                        let from = if f[2].ends_with('1') { "kid1" } else { "kid2" };
+                        if f[1] != from {
+                            return Err(("foreign-finalize".into(), format!("event {} of {} ran the <finalize> of {}", f[2], from, f[1])));
+                        }
+                    }
+                    Ok("sibling-alive".into())
+                }),
+            });
+            // I: two invokes in ONE state with their own <finalize>: an event runs the finalize of its own invoke only
+            let two_i = format!(
+                r##"<invoke id="kid1"><content>{a}</content><finalize><script>mark('finalize', 'kid1', _event.name)</script></finalize></invoke><invoke id="kid2"><content>{b}</content><finalize><script>mark('finalize', 'kid2', _event.name)</script></finalize></invoke>"##,
+                a = child_doc(r##"<state id="k"><onentry><send event="c1" target="#_parent"/></onentry><transition target="kf"/></state><final id="kf"/>"##),
+                b = child_doc(r##"<state id="k"><onentry><send event="c2" target="#_parent"/></onentry><transition target="kf"/></state><final id="kf"/>"##)
+            );
+            v.push(scen(
+                "finalize-of-own-invoke-only",
+                0,
+                1,
+                parent_doc(&two_i, ""),
+                vec![("go", "c1+c2+done+done"), ("fin", "fin")],
+                Box::new(|o: &Obs| {
+                    basic_outcome(o)?;
+                    let mut f: Vec<(String, String)> = marks_of(o, "finalize").iter().map(|m| (m[1].clone(), m[2].clone())).collect();
+                    f.sort();
+                    f.retain(|x| !x.1.starts_with("done.invoke"));
+                    if f != vec![("kid1".to_string(), "c1".to_string()), ("kid2".to_string(), "c2".to_string())] {
+                        return Err(("foreign-finalize".into(), format!("finalize blocks executed (invoke, event): {:?}; expected kid1 for c1 and kid2 for c2 only", f)));
+                    }
+                    Ok("ok".into())
+                }),
+            ));
+            // J: the invoking state is left by an event that is already queued when the invoke starts (sent from the
+            // state's own onentry): the cancellation must reach the child however early it comes
+            let kid_j = child_doc(r##"<state id="k"><onentry><script>notify('sid' + _sessionid)</script><send event="c1" target="#_parent"/></onentry><transition event="*"><script>mark('k-got', _event.name)</script></transition></state>"##);
+            let doc_j = format!(
+                r##"<scxml {ns} name="parj"><state id="a"><transition event="go" target="b"/></state>
+<state id="b"><onentry><send event="leave"/></onentry><invoke id="kid"><content>{kid}</content></invoke>
+ <transition event="leave" target="c"/><transition event="c1"><script>mark('p-child-event', _event.name, _event.invokeid)</script></transition></state>
+<state id="c"><onentry><script>notify('in-c')</script></onentry><transition event="fin"><script>notify('fin')</script></transition>
+ <transition event="c1 done.invoke"><script>mark('p-late', _event.name)</script></transition></state></scxml>"##,
+                ns = NS,
+                kid = kid_j
+            );
+            v.push(Scenario {
+                name: "exit-right-after-invoke",
+                quick_bound: 1,
+                thorough_bound: 2,
+                atomics: false,
+                body: Box::new(move |log, _notes| {
+                    let doc = doc_j.clone();
+                    Box::new(move || {
+                        let ex = FsmExecutor::new_without_io_processor();
+                        let (tx, rx) = verif_sync::mpsc::channel::<String>();
+                        let sess = start_n(&ex, &doc, &log, &tx);
+                        let _ = sess.sender.send(Box::new(Event::new_simple("go")));
+                        // the parent has left b (child cancelled) and the child has announced its session id
+                        let mut kid_sid = 0u32;
+                        let mut in_c = false;
+                        while kid_sid == 0 || !in_c {
+                            match rx.recv() {
+                                Ok(m) => {
+                                    if let Some(n) = m.strip_prefix("sid") {
+                                        kid_sid = n.parse().unwrap_or(0);
+                                    } else if m == "in-c" {
+                                        in_c = true;
+                                    }
+                                }
+                                Err(_) => break,
+                            }
+                        }
+                        // queued behind the cancel event of the child: a cancelled child never processes it
+                        let _ = ex.send_to_session(kid_sid, Event::new_simple("probe"));
+                        let _ = sess.sender.send(Box::new(Event::new_simple("fin")));
+                        wait_for(&rx, &["fin"]);
+                        cancel_and_join(sess);
+                    })
+                }),
+                oracle: Box::new(|o: &Obs| {
+                    basic_outcome(o)?;
+                    let kg: Vec<String> = marks_of(o, "k-got").iter().map(|m| m[1].clone()).collect();
+                    if kg.iter().any(|n| n == "probe") {
+                        return Err(("child-not-cancelled".into(), format!("the invoking state was exited, yet its child still processed an event sent afterwards: child processed {:?}", kg)));
+                    }
+                    let late = marks_of(o, "p-late");
+                    if !late.is_empty() {
+                        return Err(("event-after-cancel".into(), format!("events of the cancelled child processed after the exit: {:?}", late)));
+                    }
+                    Ok(format!("kids={}", threads_entering(o, "k").len()))
+                }),
+            });
         }
         if prop == "C15" {
             // routing: a parent with an invoked child and a sibling; every target form once, literal and targetexpr,
